@@ -13,10 +13,15 @@ tie    : exact correspondence (rational canonical forms) of the Lean model *and*
          rn53), thresholding also through NumPy's own quantile / median algorithm (mkevnp);
          translate/gen_C16.py additionally regenerates the dtype / stores of the threshold array
          and the 'linear' quantile expressions of the installed NumPy
+         round 5: the float arithmetic inside the ES counting (esfl: model esR rn53s, every
+         operation on times rounded to double) bit for bit, also on time stamps whose sums /
+         differences are not representable (stream `rounding`)
 search : the published counting formulas as plain loops in `Fraction`, the
          range / exchange / shift / rescaling relations on the implementation,
          the N×N matrix against the static pairwise calls, thresholding against
-         an independent quantile, long series (int16), EventSeriesClimateNetwork
+         an independent quantile, long series (int16), EventSeriesClimateNetwork;
+         round 5: the published ES double sum evaluated in IEEE double (es_formula_float) on the
+         rounding stream, bit-identical power-of-two rescaling and exchange at lag 0 there
 """
 import itertools
 import math
@@ -362,7 +367,9 @@ def run(ctx):
                 "float64 / float32 / int64 arrays, event series as int / bool / int8 / float arrays, "
                 "taumax in {inf,0,.5,...,5} or wide {2^-10,2^-4,64,2048}, lag in {0,+-.5,+-1,2,-1.5} or "
                 "wide {2^-10,-2^-4,100,-64,4096}; each request answered by the Lean model and by the Lean "
-                "published formula; matrix level: EventSeries objects N=1..6, T<=20 x all symmetrisations / "
+                "published formula and (ES) by the rounded model esFl; stream `rounding`: ES on time stamps "
+                "0.1*i, i/3, i/7, random doubles, offsets 1e6..2^52, cumulative sums, int64 indices with "
+                "non-representable lags, float32 arrays, dense tie-rich series — esFl bit for bit; matrix level: EventSeries objects N=1..6, T<=20 x all symmetrisations / "
                 "windows, default arguments, multi-step histories; thresholding: float64 (incl. values needing 30+ bits) / "
                 "float32 / int64..int8 / uint8 / uint16 data x "
                 "quantiles k/8, k/16 / values / types / defaults, scalar / array / list parameters, static "
@@ -370,7 +377,11 @@ def run(ctx):
                 "= both series have >= 3 events (ES) / >= 1 event (ECA) / data not constant (thresholding)")
     ctx.assumptions = [
         "event times / time stamps strictly increasing; event matrices binary",
-        "correspondence inputs are dyadic rationals (decisions exact in float64 and, where used, float32); "
+        "correspondence inputs of the pair / matrix / threshold streams are dyadic rationals (theorem "
+        "es_float_lattice: on such data the float path of event_synchronization is the exact model; for ECA "
+        "exactness of the float operations on dyadic data is still assumed); on the `rounding` stream the "
+        "operations on times do round and the rounded model esFl (rn53s: round to nearest even, no sub-normals "
+        "/ overflow; placement of the roundings modelled by hand from dtype='float') is compared bit for bit; "
         "float results compared as canonical small rationals under tolerance 1e-9 (ES, squared) / 3e-7 "
         "(ECA, float32) and, in separate requests, bit for bit (esf64 / esmatf64 / ecaf32 / ecamatf32)",
         "float64 strengths: np.sqrt and / are correctly rounded (IEEE 754); the model's sqrt53 (double nearest "
